@@ -7111,6 +7111,9 @@ pub(crate) fn eval(env: &mut Env, session: &Session) -> Result<Value, EvalError>
         if let Some((mut expr_state, outer_expr)) = env.current_frame_mut().exprs_to_eval.pop() {
             env.ticks += 1;
 
+            #[cfg(wilfred_garden_verif)]
+            crate::verif_sim::on_eval_step(env, session, &expr_state, &outer_expr);
+
             if session.interrupted.load(Ordering::SeqCst) {
                 session.interrupted.store(false, Ordering::SeqCst);
                 restore_stack_frame(env, (expr_state, outer_expr), &[]);
